@@ -140,12 +140,7 @@ def check(ctx) -> None:
     ctx.instance("C10-A2", "atom totals are computed per condition without filtering", g.loc(), ok=ok)
     if not ok:
         ctx.finding("C10-A2", "ExtractMCS.get_largest_condition:totals", g.loc(), "per-condition totals are filtered or reordered")
-    calc = prog.func("synrbl.SynMCSImputer.SubStructure.extract_common_mcs.ExtractMCS.calculate_total_number_atoms_mcs_parallel")
-    src = unparse(calc.node)
-    ok = "for d in condition" in src and "generator_unordered" not in src
-    ctx.instance("C10-A2", "totals are computed by an ordered map over the condition's rows", calc.loc(), ok=ok)
-    if not ok:
-        ctx.finding("C10-A2", "ExtractMCS.calculate_total_number_atoms_mcs_parallel:order", calc.loc(), "the totals are not an ordered map over the condition's rows")
+    totals_alignment(ctx, "C10-A2")
     # ---------------------------------------------------------------- A3
     sm = prog.func(SINGLE)
     scfg = CFG(sm.node)
@@ -208,3 +203,21 @@ def _accumulates_in_order(en: Func, pcalls) -> bool:
         if any(isinstance(x, ast.Call) and isinstance(x.func, ast.Attribute) and isinstance(x.func.value, ast.Name) and x.func.value.id == lname and x.func.attr in ("sort", "reverse", "insert", "pop", "remove") for x in own_nodes(en.node)):
             return False
     return True
+
+
+def totals_alignment(ctx, rule_id: str) -> None:
+    """Per-condition atom totals are an ordered, unfiltered map over the
+    condition's rows (failed entries keep their position and count 0)."""
+    prog = ctx.prog
+    calc = prog.func("synrbl.SynMCSImputer.SubStructure.extract_common_mcs.ExtractMCS.calculate_total_number_atoms_mcs_parallel")
+    ok = False
+    for c in calls(calc):
+        if unparse(c.func).split(".")[-1] == "Parallel":
+            outer = getattr(c, "_parent", None)
+            ra = next((k.value for k in c.keywords if k.arg == "return_as"), None)
+            if isinstance(outer, ast.Call) and outer.args and isinstance(outer.args[0], ast.GeneratorExp):
+                g = outer.args[0].generators[0]
+                ok = not g.ifs and isinstance(g.iter, ast.Name) and g.iter.id == calc.params[0] and (ra is None or const_str(ra) in ("list", "generator"))
+    ctx.instance(rule_id, "totals are computed by an ordered, unfiltered map over the condition's rows", calc.loc(), ok=ok)
+    if not ok:
+        ctx.finding(rule_id, "ExtractMCS.calculate_total_number_atoms_mcs_parallel:order", calc.loc(), "the totals are not an ordered, unfiltered map over the condition's rows: a skipped (failed / timed-out) entry shifts every later reaction's total to its neighbour")
